@@ -281,12 +281,13 @@ nlopt_result nlopt_set_param(nlopt_opt opt, const char *name, double val) {
         if (!strcmp(name, opt->params[i].name))
             break;
     if (i == opt->nparams) { /* allocate new parameter */
-        opt->nparams++;
-        opt->params = (nlopt_opt_param *) realloc(opt->params, sizeof(nlopt_opt_param) * opt->nparams);
-        if (!opt->params) return NLOPT_OUT_OF_MEMORY;
+        nlopt_opt_param *params = (nlopt_opt_param *) realloc(opt->params, sizeof(nlopt_opt_param) * (opt->nparams + 1));
+        if (!params) return NLOPT_OUT_OF_MEMORY;
+        opt->params = params;
         opt->params[i].name = (char *) malloc(len);
         if (!opt->params[i].name) return NLOPT_OUT_OF_MEMORY;
         memcpy(opt->params[i].name, name, len);
+        opt->nparams++;
     }
     opt->params[i].val = val;
     return NLOPT_SUCCESS;
